@@ -93,3 +93,5 @@ ENGINES.append({"name": "E4 schedule explorer", "path": "vf/sched.py", "serves_p
   "kind_free_text": "real threads under a baton scheduler: stateful DFS over all interleavings at lock-operation granularity with prefix replay and divergence detection; line-event preemption of one thread by a complete operation of another"})
 ENGINES.append({"name": "TLC cross-check", "path": "models/rwlock.tla", "serves_properties": ["C20"],
   "kind_free_text": "TLA+ model of the reader-writer lock; TLC's dumped state graph is walked in lock-step with the implementation graph"})
+ENGINES.append({"name": "TLC cross-check (header reader)", "path": "models/bec2header.tla", "serves_properties": ["C07"],
+  "kind_free_text": "TLA+ model of the BEC2 authentication-header reader; every behaviour in TLC's dumped state graph is replayed on the real reader (outcome, session key, order of decrypt calls)"})
